@@ -5,6 +5,7 @@ package interp
 
 import (
 	"fmt"
+	"go/token"
 	"go/types"
 	"math/big"
 	"strings"
@@ -28,7 +29,7 @@ func ropeOf(v value) rope {
 			return rope{}
 		}
 		return rope{[]value{x}}
-	case symInt, symStr, *jsonTok, hashPart:
+	case symInt, symStr, *jsonTok, hashPart, timeTok:
 		return rope{[]value{x}}
 	case opaqueBytesV:
 		return x.r
@@ -109,6 +110,7 @@ const (
 	segStr
 	segTok
 	segHash
+	segTime
 )
 
 type seg struct {
@@ -228,6 +230,8 @@ func (r rope) segments() []seg {
 			out = append(out, seg{kind: segTok, v: x})
 		case hashPart:
 			out = append(out, seg{kind: segHash, v: x})
+		case timeTok:
+			out = append(out, seg{kind: segTime, v: x})
 		default:
 			panic(unsupported{fmt.Sprintf("rope part %T", p)})
 		}
@@ -316,6 +320,14 @@ func ropeEq(a, b rope) value {
 			r = mkAnd(r, boolTerm(tokEq(x.v.(*jsonTok), y.v.(*jsonTok))))
 		case segHash:
 			r = mkAnd(r, boolTerm(ropeEq(x.v.(hashPart).inner, y.v.(hashPart).inner)))
+		case segTime:
+			tx, ty := x.v.(timeTok), y.v.(timeTok)
+			if tx.layout != ty.layout {
+				return false
+			}
+			sx := binop(token.QUO, types.Typ[types.Int64], tx.ns, int64(1e9))
+			sy := binop(token.QUO, types.Typ[types.Int64], ty.ns, int64(1e9))
+			r = mkAnd(r, boolTerm(binop(token.EQL, types.Typ[types.Int64], sx, sy)))
 		}
 		if r == tFalse {
 			return false
